@@ -104,11 +104,21 @@ class ConvModel:
                 chain += list(reversed(calls))
             elif isinstance(st, ast.Assign) and isinstance(st.value, ast.Call) and isinstance(st.value.func, ast.Name) and st.value.func.id == "eval":
                 arg = st.value.args[0]
-                # "lambda x:%s" % s
-                if not (isinstance(arg, ast.BinOp) and isinstance(arg.op, ast.Mod) and isinstance(arg.left, ast.Constant)
+                # "lambda x:%s" % s   |   f"lambda x:{s}"   |   "lambda x:{}".format(s)   |   "lambda x:" + s
+                txt = None
+                if (isinstance(arg, ast.BinOp) and isinstance(arg.op, ast.Mod) and isinstance(arg.left, ast.Constant)
                         and isinstance(arg.left.value, str) and isinstance(arg.right, ast.Name) and arg.right.id == s):
-                    raise AnalysisError("%s: eval argument is not \"lambda P:%%s\" %% formula" % lam.qual)
-                txt = arg.left.value
+                    txt = arg.left.value
+                elif isinstance(arg, ast.JoinedStr) and len(arg.values) == 2 and isinstance(arg.values[0], ast.Constant) and isinstance(arg.values[1], ast.FormattedValue) \
+                        and isinstance(arg.values[1].value, ast.Name) and arg.values[1].value.id == s and arg.values[1].conversion == -1 and arg.values[1].format_spec is None:
+                    txt = arg.values[0].value.replace("%", "%%") + "%s"
+                elif isinstance(arg, ast.Call) and isinstance(arg.func, ast.Attribute) and arg.func.attr == "format" and isinstance(arg.func.value, ast.Constant) and isinstance(arg.func.value.value, str) \
+                        and len(arg.args) == 1 and isinstance(arg.args[0], ast.Name) and arg.args[0].id == s and arg.func.value.value.count("{}") == 1:
+                    txt = arg.func.value.value.replace("%", "%%").replace("{}", "%s")
+                elif isinstance(arg, ast.BinOp) and isinstance(arg.op, ast.Add) and isinstance(arg.left, ast.Constant) and isinstance(arg.left.value, str) and isinstance(arg.right, ast.Name) and arg.right.id == s:
+                    txt = arg.left.value.replace("%", "%%") + "%s"
+                if txt is None:
+                    raise AnalysisError("%s: eval argument is not \"lambda P:%%s\" %% formula (or an equivalent f-string / format / concatenation)" % lam.qual)
                 try:
                     l = ast.parse(txt % "0", mode="eval").body
                 except SyntaxError:
